@@ -67,7 +67,8 @@ Euler == << 1, 1, 2, 1, 3, 1, 4, 1, 5, 1, 6, 1, 7, 1, 8, 1, 9, 1, 10, 1, 11, 2, 
             5, 10, 5, 11, 6, 6, 7, 6, 8, 6, 9, 6, 10, 6, 11, 7, 7, 8, 7, 9, 7, 10, 7, 11, 8, 8, 9, 8, 10, 8, 11, 9, 9, 10, 9, 11, 10, 10,
             11, 11, 1 >>
 ASSUME NM = 11 /\ \A a \in 1..NM : \A b \in 1..NM : \E p \in 1..(Len(Euler) - 1) : Euler[p] = a /\ Euler[p + 1] = b
-Streams == << Euler, <<>>, <<2, 1, 2, 2>>, <<6, 7, 1, 5>>, <<11, 10, 9, 8>>, <<1, 1, 1, 1>> >>
+\* the last stream is the one the driver also feeds with a paced producer (filter on its own thread)
+Streams == << Euler, <<>>, <<2, 1, 2, 2>>, <<6, 7, 1, 5>>, <<11, 10, 9, 8>>, <<1, 1, 1, 1>>, <<3, 7, 10, 1, 9, 5>> >>
 NS == Len(Streams)
 
 ASSUME PrintT(<<"TAB", ToJson([pool |-> ItemTab, msgs |-> Msgs, streams |-> Streams])>>)
